@@ -18,6 +18,7 @@
 From Coq Require Import ZArith List Bool.
 From FT Require Import Base.Dict Model.RoundTrip Proofs.RoundTripProofs.
 From FT Require Proofs.ImportTie Proofs.ExportTie.
+From FT Require Proofs.RoundTripGenerated.
 Import ListNotations.
 Open Scope Z_scope.
 
@@ -132,6 +133,20 @@ Proof. exact @FT.Proofs.ExportTie.gen_split_position_attr_eq. Qed.
 Theorem C14_featuredict_roundtrip_is_generated : ltac:(let t := type of @FT.Proofs.ExportTie.gen_featuredict_roundtrip in exact t).
 Proof. exact @FT.Proofs.ExportTie.gen_featuredict_roundtrip. Qed.
 
+
+(* ---- the round trip stated for the TRANSLATED code end to end (Proofs/RoundTripGenerated.v): running the generated
+        export, reading back the value carried by its write event (the IO oracle: the file read is the value
+        written; pandas infers an integer dtype for the id column; geff accepts the exported track ids) and running
+        the generated import build returns the original nodes, edges, times, positions and track ids - for CSV, for
+        GEFF, and for the feature registry of the internal format. ---- *)
+Theorem C14_generated_csv_roundtrip : ltac:(let t := type of @FT.Proofs.RoundTripGenerated.generated_csv_roundtrip in exact t).
+Proof. exact @FT.Proofs.RoundTripGenerated.generated_csv_roundtrip. Qed.
+
+Theorem C14_generated_geff_roundtrip : ltac:(let t := type of @FT.Proofs.RoundTripGenerated.generated_geff_roundtrip in exact t).
+Proof. exact @FT.Proofs.RoundTripGenerated.generated_geff_roundtrip. Qed.
+
+Theorem C14_generated_featuredict_roundtrip : ltac:(let t := type of @FT.Proofs.RoundTripGenerated.generated_featuredict_roundtrip in exact t).
+Proof. exact @FT.Proofs.RoundTripGenerated.generated_featuredict_roundtrip. Qed.
 
 Example C14_ex2d_csv :
   export_csv ex2d 0 (PMulti [11; 12]) 2 false =
@@ -274,3 +289,6 @@ Print Assumptions C14_geff_build_is_generated.
 Print Assumptions C14_export_csv_is_generated.
 Print Assumptions C14_split_position_is_generated.
 Print Assumptions C14_featuredict_roundtrip_is_generated.
+Print Assumptions C14_generated_csv_roundtrip.
+Print Assumptions C14_generated_geff_roundtrip.
+Print Assumptions C14_generated_featuredict_roundtrip.
